@@ -297,6 +297,7 @@ type PathOpts struct {
 	Prune    bool                       // prune branches infeasible by constant equality (default on)
 	NoPrune  bool
 	SkipEdge func(from, to *ssa.BasicBlock) bool
+	Within   map[*ssa.BasicBlock]bool // if set, a path ends (End="exit") when it steps to a block outside this set
 }
 
 type pathEnum struct {
@@ -434,6 +435,10 @@ func (pe *pathEnum) walk(fn *ssa.Function, b *ssa.BasicBlock, blocks []*ssa.Basi
 		pe.emit(fn, append(blocks, b), evs, "stop")
 		return
 	}
+	if pe.opts.Within != nil && !pe.opts.Within[b] {
+		pe.emit(fn, append(blocks, b), evs, "exit")
+		return
+	}
 	if visits[b] >= pe.opts.MaxVisit {
 		pe.emit(fn, append(blocks, b), evs, "cut")
 		return
@@ -530,6 +535,12 @@ func NaturalLoops(fn *ssa.Function) []*Loop {
 // re-entered (End="stop"), the loop is left and the function returns/panics, or a cut.
 func IterationPaths(fn *ssa.Function, l *Loop) ([]*Path, bool) {
 	return Paths(fn, PathOpts{Start: l.Header, MaxVisit: 1, StopAt: func(b *ssa.BasicBlock) bool { return b == l.Header }})
+}
+
+// IterationPathsExit is IterationPaths, but a path that leaves the loop body ends there
+// (End="exit") instead of being followed to the function's return.
+func IterationPathsExit(fn *ssa.Function, l *Loop) ([]*Path, bool) {
+	return Paths(fn, PathOpts{Start: l.Header, MaxVisit: 1, StopAt: func(b *ssa.BasicBlock) bool { return b == l.Header }, Within: l.Body})
 }
 
 // ---------------------------------------------------------------------------------------------
